@@ -37,6 +37,7 @@ CONSTANTS Part,               \* "lines" | "sessions" | "c15" | "c19"
           MaxOps,             \* c19: maximal number of operations after the submit
           ExportOps,          \* c19: histories up to this length are exported for every key set of the family
           KeyFamily,          \* c19: "all" (every subset of the key classes) or "cover" (a covering family of subsets)
+          RedactNeedsTLSRecord, \* c19: FALSE = the code (redaction looks at the keys only); TRUE = redaction skipped for units without a recorded TLS profile
           DumpFile            \* "" or the NDJSON file the vectors of this part are written to
 
 VARIABLES lc,    \* part lines: the line class of this state
@@ -534,24 +535,54 @@ Redact(ks) == { k \in ks : ~IsSecret(k) }
 
 Ops19 == {"status", "list", "list_one", "cancel", "release", "restart"}
 
+\* How the submit command ends (AllocateRemoteUnit works in steps: 0 the named TLS profile is looked up, the secret /
+\* TLS rule is applied; 1 AllocateUnit("remote", params) creates the directory, stores ALL parameters, saves the record
+\* and publishes the unit - with an empty TLSClient; 2 ttl is parsed; 3 a second record update stores node, type,
+\* TLSClient, expiry, signwork; then the command takes stdin and starts the unit):
+\*   ok          accepted, no ttl                     ttl_ok   accepted, ttl "1h"
+\*   ttl_past    accepted, the unit expires at once   abort_stdin  accepted, the client goes away instead of sending stdin
+\*   listed_mid  accepted, and another session lists the units between step 1 and step 3
+\*   tls_unknown the named TLS profile does not exist: refused in step 0, nothing allocated
+\*   ttl_bad     malformed ttl: the command answers an error in step 2, but the unit of step 1 STAYS (listed, on disk,
+\*               with every parameter and no TLSClient recorded) - existing behaviour of the code, modelled as such
+\*   crash_mid   the process dies between step 1 and step 3 and is restarted: the same record is loaded from disk
+SubmitVariants == {"ok", "ttl_ok", "ttl_past", "abort_stdin", "listed_mid", "tls_unknown", "ttl_bad", "crash_mid"}
+
+Outcome19(ks, tls, sv) ==
+  IF sv = "tls_unknown" \/ (~tls /\ \E k \in ks : IsSecret(k)) THEN "refused"          \* before anything is allocated
+  ELSE IF sv = "ttl_bad" THEN "failed_after_alloc"
+  ELSE IF sv = "crash_mid" THEN "crashed_after_alloc"
+  ELSE "accepted"
+
 \* state of the submitting node for one unit: mem/disk = the parameter keys held in memory / in the status file
-\* (both unredacted: the unit must be resumable), unit: none | live | released
-H19Init(ks, tls) ==
-  LET refused == ~tls /\ \E k \in ks : IsSecret(k) IN
-  [keys |-> ks, tls |-> tls, ops |-> <<>>,
+\* (both unredacted: the unit must be resumable), tlsrec = a TLS profile is recorded in the unit (step 3 happened and a
+\* profile was named), unit: none | live | released
+H19Init(ks, tls, sv) ==
+  LET oc == Outcome19(ks, tls, sv)
+      refused == oc = "refused"
+      first == [op |-> "submit", reply |-> CASE oc = "accepted" -> "created" [] oc = "crashed_after_alloc" -> "none" [] OTHER -> "error", shown |-> {}] IN
+  [keys |-> ks, tls |-> tls, sv |-> sv, outcome |-> oc, ops |-> <<>>,
    unit |-> IF refused THEN "none" ELSE "live",
    dir  |-> ~refused,                                \* a unit directory exists
-   wire |-> IF refused THEN {} ELSE ks,               \* keys whose values may be sent to the other node (over the named TLS profile when there are secrets)
+   wire |-> IF oc = "accepted" THEN ks ELSE {},      \* keys whose values may be sent to the other node (over the named TLS profile when there are secrets)
    mem  |-> IF refused THEN {} ELSE ks, disk |-> IF refused THEN {} ELSE ks,
-   replies |-> << [op |-> "submit", reply |-> IF refused THEN "error" ELSE "created", shown |-> {}] >>]
+   tlsrec |-> oc = "accepted" /\ tls,
+   replies |-> IF sv = "listed_mid" /\ oc = "accepted"
+               THEN << first, [op |-> "list_mid", reply |-> "json", shown |-> Redact(ks)] >>   \* the other session's list sees the half-made unit
+               ELSE << first >>]
+
+\* What a status-like reply shows.  The code redacts whatever the record says; RedactNeedsTLSRecord = TRUE models the
+\* tempting short-cut "a unit without a recorded TLS profile holds no secrets" (seeded/c19-redact-skip-without-tls),
+\* which the left-behind and half-made units refute.
+Shown19(h) == IF RedactNeedsTLSRecord /\ ~h.tlsrec THEN h.mem ELSE Redact(h.mem)
 
 Do19(h, op) ==
   LET live == h.unit = "live"
       rep(r, shown) == Append(h.replies, [op |-> op, reply |-> r, shown |-> shown]) IN
   CASE op \in {"status", "list_one"} ->
-         [h EXCEPT !.ops = Append(@, op), !.replies = IF live THEN rep("json", Redact(h.mem)) ELSE rep("error", {})]
+         [h EXCEPT !.ops = Append(@, op), !.replies = IF live THEN rep("json", Shown19(h)) ELSE rep("error", {})]
     [] op = "list" ->
-         [h EXCEPT !.ops = Append(@, op), !.replies = IF live THEN rep("json", Redact(h.mem)) ELSE rep("json_without_unit", {})]
+         [h EXCEPT !.ops = Append(@, op), !.replies = IF live THEN rep("json", Shown19(h)) ELSE rep("json_without_unit", {})]
     [] op = "cancel" ->
          [h EXCEPT !.ops = Append(@, op), !.replies = IF live THEN rep("json", {}) ELSE rep("error", {})]
     [] op = "release" ->
@@ -559,7 +590,7 @@ Do19(h, op) ==
                    !.unit = IF live THEN "released" ELSE @, !.dir = IF live THEN FALSE ELSE @,
                    !.mem = IF live THEN {} ELSE @, !.disk = IF live THEN {} ELSE @]
     [] op = "restart" ->
-         [h EXCEPT !.ops = Append(@, op), !.mem = h.disk,            \* reload from the status file
+         [h EXCEPT !.ops = Append(@, op), !.mem = h.disk,            \* reload from the status file (tlsrec is part of it)
                    !.replies = rep("none", {})]
 
 Secrets19 == { k \in Keys19 : IsSecret(k) }
@@ -567,31 +598,49 @@ KeySets19 ==
   IF KeyFamily = "all" THEN SUBSET Keys19
   ELSE { {k} : k \in Keys19 } \cup { {}, Keys19, Secrets19, Keys19 \ Secrets19, {"secret_x", "plain"}, {"SECRET_x", "plain"},
                                       {"Secret_X", "secret", "xsecret_"}, {"SECRET_x", "Secret_X", "xsecret_"} }
-Init19 == h19 \in { H19Init(ks, tls) : ks \in KeySets19, tls \in BOOLEAN }
+\* the submit variants other than "ok" are explored for a small family of key sets
+VarKeySets19 == { Keys19, {"Secret_X", "plain"}, {"secret_x"}, {"plain", "secret"} }
+Starts19 == { <<ks, tls, "ok">> : ks \in KeySets19, tls \in BOOLEAN }
+            \cup { <<ks, tls, sv>> : ks \in VarKeySets19, tls \in BOOLEAN, sv \in SubmitVariants \ {"ok"} }
+Init19 == h19 \in { H19Init(st[1], st[2], st[3]) : st \in { x \in Starts19 : x[3] = "tls_unknown" => x[2] } }
 Next19 == /\ Len(h19.ops) < MaxOps
           /\ \E op \in Ops19 : h19' = Do19(h19, op)
 
 NoSecretInReplies == Part = "c19" => \A i \in 1..Len(h19.replies) : \A k \in h19.replies[i].shown : ~IsSecret(k)
 OthersUnchanged ==
   Part = "c19" => \A i \in 1..Len(h19.replies) :
-     h19.replies[i].reply = "json" /\ h19.replies[i].op \in {"status", "list", "list_one"}
+     h19.replies[i].reply = "json" /\ h19.replies[i].op \in {"status", "list", "list_one", "list_mid"}
         => h19.replies[i].shown = { k \in h19.keys : ~IsSecret(k) }
 RefuseWithoutTLS ==
   Part = "c19" => ((~h19.tls /\ \E k \in h19.keys : IsSecret(k))
                       => h19.replies[1].reply = "error" /\ h19.unit = "none" /\ ~h19.dir /\ h19.wire = {} /\ h19.disk = {})
-W19_NoRedaction == ~(Part = "c19" /\ Len(h19.ops) >= 2 /\ h19.ops[1] = "restart" /\ h19.ops[2] = "list"
+\* what the code does with a submit that fails after the allocation (not a requirement): the unit stays, with every
+\* parameter and without a recorded TLS profile; nothing was sent
+FailedSubmitLeavesUnit ==
+  Part = "c19" => (h19.outcome \in {"failed_after_alloc", "crashed_after_alloc"} /\ h19.ops = <<>>
+                      => h19.unit = "live" /\ h19.disk = h19.keys /\ ~h19.tlsrec /\ h19.wire = {})
+W19_NoRedaction == ~(Part = "c19" /\ Len(h19.ops) >= 2 /\ h19.ops[1] = "restart" /\ h19.ops[2] = "list" /\ h19.sv = "ok"
                         /\ h19.replies[3].reply = "json" /\ h19.replies[3].shown # {} /\ h19.replies[3].shown # h19.keys)
 W19_NoRefusal   == ~(Part = "c19" /\ h19.unit = "none")
 W19_NoCaseVariantAccepted == ~(Part = "c19" /\ h19.unit = "live" /\ h19.tls /\ "Secret_X" \in h19.keys)
+W19_NoLeftBehindSecretListed ==     \* a left-behind unit holding a secret is listed (redacted) after a restart
+  ~(Part = "c19" /\ h19.outcome = "failed_after_alloc" /\ (\E k \in h19.keys : IsSecret(k)) /\ Len(h19.ops) >= 2
+       /\ h19.ops[1] = "restart" /\ h19.ops[2] = "list" /\ h19.replies[3].reply = "json")
 
-\* export: every history of at most ExportOps operations for every key set and TLS choice
+\* export: for the plain submit every history of at most ExportOps operations, for every key set of the family and TLS
+\* choice; for the other submit variants a fixed set of short histories on the small family
 RECURSIVE OpSeqs(_)
 OpSeqs(n) == IF n = 0 THEN {<<>>} ELSE LET p == OpSeqs(n - 1) IN p \cup { Append(q, o) : q \in { x \in p : Len(x) = n - 1 }, o \in Ops19 }
+VarOps19(sv) ==
+  IF sv = "crash_mid" THEN { <<"list">>, <<"status">> }
+  ELSE { <<>>, <<"list">>, <<"status">>, <<"list_one">>, <<"restart", "list">>, <<"restart", "status">>, <<"cancel", "list">>, <<"list", "release">> }
 RECURSIVE Fold19(_, _)
 Fold19(h, ops) == IF ops = <<>> THEN h ELSE Fold19(Do19(h, Head(ops)), Tail(ops))
-Vec19(ks, tls, ops) == LET h == Fold19(H19Init(ks, tls), ops) IN
-  [keys |-> ks, tls |-> tls, ops |-> ops, replies |-> h.replies, unit |-> h.unit, dir |-> h.dir]
-Vectors19 == { Vec19(ks, tls, ops) : ks \in KeySets19, tls \in BOOLEAN, ops \in OpSeqs(ExportOps) }
+Vec19(ks, tls, sv, ops) == LET h == Fold19(H19Init(ks, tls, sv), ops) IN
+  [keys |-> ks, tls |-> tls, sv |-> sv, outcome |-> h.outcome, ops |-> ops, replies |-> h.replies, unit |-> h.unit, dir |-> h.dir]
+Vectors19 == { Vec19(ks, tls, "ok", ops) : ks \in KeySets19, tls \in BOOLEAN, ops \in OpSeqs(ExportOps) }
+             \cup UNION { { Vec19(st[1], st[2], st[3], ops) : ops \in VarOps19(st[3]) }
+                          : st \in { x \in Starts19 : x[3] # "ok" /\ (x[3] = "tls_unknown" => x[2]) } }
 
 (***************************************************************************)
 (*                          the state machine                              *)
